@@ -49,7 +49,7 @@ func (c *webClient) GetStats() *stats.Client {
 		conns := stats.Conn{
 			Id: down.id,
 		}
-		for _, t := range down.tracks {
+		for _, t := range down.getTracks() {
 			layer := t.getLayerInfo()
 			sid := layer.sid
 			maxSid := layer.maxSid
